@@ -45,7 +45,7 @@ pub broadcast axiom fn axiom_char_obeys() ensures #[trigger] <char as PartialOrd
 pub broadcast axiom fn axiom_char_cmp(a: char, b: char)
     ensures #[trigger] PartialOrdSpec::partial_cmp_spec(&a, &b) == (if a < b { Some(std::cmp::Ordering::Less) } else if a == b { Some(std::cmp::Ordering::Equal) } else { Some(std::cmp::Ordering::Greater) });
 }
-broadcast use {vstd::string::group_string_axioms, vfmt::axiom_wlog_string, pl::group_pre, chs::axiom_char_obeys, chs::axiom_char_cmp};
+broadcast use {vstd::string::group_string_axioms, vfmt::axiom_wlog_string, pl::group_pre, chs::axiom_char_obeys, chs::axiom_char_cmp, chk::axiom_char_key_model, vstd::std_specs::hash::group_hash_axioms};
 
 // ---- the documented JSON string escaping (RFC 8259 §7 + --utf8-strings), per character ----
 pub open spec fn esc(ch: char, utf8: bool) -> Seq<char> {
@@ -76,6 +76,7 @@ pub open spec fn json_string_text(s: Seq<char>, utf8: bool) -> Seq<char> { seq![
 //@@ item src/output_style.rs :: enum JsonStyle
 //@@ enditem
 //@@ item src/output_style.rs :: struct JsonOutputOptions
+//@@ rewrite pub_fields
 //@@ enditem
 
 pub open spec fn appended<W: ?Sized>(o: &W, n: &W, t: Seq<char>, r: FmtResult) -> bool {
@@ -257,7 +258,7 @@ impl From<std::io::Error> for ProcessError { #[verifier::external_body] fn from(
 
 // ------------------------------------------------------------------ JsonProcess: the JSON printer as the terminal stage
 //@@ item src/output_style.rs :: struct JsonProcess
-//@@ rewrite dyn_write
+//@@ rewrite dyn_write pub_fields pub_struct
 //@@ enditem
 
 pub open spec fn json_value_text(o: JsonOutputOptions, v: JsonValue) -> Seq<char> {
@@ -310,6 +311,211 @@ impl Process for JsonProcess {
             assert(seq![context].subrange(1, 1) =~= Seq::<Context>::empty());
             assert(json_rows(o, sep, seq![context]) =~= row);
         }
+//@@ endfn
+}
+
+// ------------------------------------------------------------------ text / csv output
+//@@ item src/output_style.rs :: struct TextOutputOptions
+//@@ rewrite pub_fields
+//@@ enditem
+//@@ item src/output_style.rs :: struct TextPrinter
+//@@ rewrite pub_fields pub_struct
+//@@ enditem
+//@@ item src/output_style.rs :: struct TextProcess
+//@@ rewrite dyn_write pub_fields pub_struct
+//@@ enditem
+
+pub mod chk {
+use vstd::prelude::*;
+pub broadcast axiom fn axiom_char_key_model() ensures #[trigger] vstd::std_specs::hash::obeys_key_model::<char>();
+}
+
+// a string field: prefix, every character either replaced by its configured escape sequence or copied, postfix
+pub open spec fn text_esc(m: Map<char, String>, ch: char) -> Seq<char> { if m.contains_key(ch) { m[ch]@ } else { seq![ch] } }
+pub open spec fn text_esc_all(m: Map<char, String>, s: Seq<char>) -> Seq<char>
+    decreases s.len()
+{
+    if s.len() == 0 { Seq::empty() } else { text_esc_all(m, s.drop_last()).add(text_esc(m, s.last())) }
+}
+pub open spec fn consise_utf8() -> JsonOutputOptions { JsonOutputOptions { style: JsonStyle::Consise, utf8_strings: true } }
+
+impl TextPrinter {
+    pub closed spec fn esc_map(&self) -> Map<char, String> { self.escape_sequandes@ }
+    pub closed spec fn opts(&self) -> TextOutputOptions { self.options }
+    pub open spec fn string_field(&self, s: Seq<char>) -> Seq<char> {
+        self.opts().string_prefix@.add(text_esc_all(self.esc_map(), s)).add(self.opts().string_postfix@)
+    }
+}
+
+impl<W: Write> Print<W> for TextPrinter {
+    open spec fn t_nothing(&self) -> Seq<char> { match self.opts().missing_value_keyword { Some(k) => k@, None => Seq::empty() } }
+    open spec fn t_null(&self) -> Seq<char> { self.opts().null_keyword@ }
+    open spec fn t_true(&self) -> Seq<char> { self.opts().true_keyword@ }
+    open spec fn t_false(&self) -> Seq<char> { self.opts().false_keyword@ }
+    open spec fn t_string(&self, s: Seq<char>) -> Seq<char> { self.string_field(s) }
+    open spec fn t_f64(&self, v: f64) -> Seq<char> { dec_f64(v) }
+    open spec fn t_i64(&self, v: i64) -> Seq<char> { dec_i64(v) }
+    open spec fn t_u64(&self, v: u64) -> Seq<char> { dec_u64(v) }
+    // nested values: the concise JSON text of the value, passed through the same string quoting
+    open spec fn t_array(&self, v: Seq<JsonValue>) -> Seq<char> { self.string_field(json_array_text(consise_utf8(), v)) }
+    open spec fn t_object(&self, e: Seq<(String, JsonValue)>) -> Seq<char> { self.string_field(json_object_text(consise_utf8(), e)) }
+
+//@@ fn textprint.print_nothing = src/output_style.rs :: impl<W: Write> Print<W> for TextPrinter :: fn print_nothing
+//@@ safety C15
+//@@ rewrite write_macros
+//@@ endfn
+//@@ fn textprint.print_null = src/output_style.rs :: impl<W: Write> Print<W> for TextPrinter :: fn print_null
+//@@ safety C15
+//@@ rewrite write_macros
+//@@ endfn
+//@@ fn textprint.print_true = src/output_style.rs :: impl<W: Write> Print<W> for TextPrinter :: fn print_true
+//@@ safety C15
+//@@ rewrite write_macros
+//@@ endfn
+//@@ fn textprint.print_false = src/output_style.rs :: impl<W: Write> Print<W> for TextPrinter :: fn print_false
+//@@ safety C15
+//@@ rewrite write_macros
+//@@ endfn
+//@@ fn textprint.print_f64 = src/output_style.rs :: impl<W: Write> Print<W> for TextPrinter :: fn print_f64
+//@@ safety C15
+//@@ rewrite write_macros
+//@@ endfn
+//@@ fn textprint.print_u64 = src/output_style.rs :: impl<W: Write> Print<W> for TextPrinter :: fn print_u64
+//@@ safety C15
+//@@ rewrite write_macros
+//@@ endfn
+//@@ fn textprint.print_i64 = src/output_style.rs :: impl<W: Write> Print<W> for TextPrinter :: fn print_i64
+//@@ safety C15
+//@@ rewrite write_macros
+//@@ endfn
+//@@ fn textprint.print_string = src/output_style.rs :: impl<W: Write> Print<W> for TextPrinter :: fn print_string
+//@@ safety C15
+//@@ rewrite write_macros
+//@@ body-start
+        let ghost w0 = wlog(f);
+//@@ loop 1 iter it
+            invariant
+                w0 == wlog(old(f)), is_pre(w0, wlog(f)), it.seq() == value@, 0 <= it.index@ <= value@.len(),
+                wlog(f) == w0.add(self.opts().string_prefix@).add(text_esc_all(self.esc_map(), value@.subrange(0, it.index@))),
+//@@ loop-start 1
+            proof { assert(value@.subrange(0, it.index@ + 1).drop_last() =~= value@.subrange(0, it.index@)); }
+//@@ after-loop 1
+        proof {
+            assert(value@.subrange(0, value@.len() as int) =~= value@);
+            let e = text_esc_all(self.esc_map(), value@);
+            assert(w0.add(self.opts().string_prefix@).add(e).add(self.opts().string_postfix@) =~= w0.add(self.string_field(value@)));
+        }
+//@@ endfn
+//@@ fn textprint.print_object = src/output_style.rs :: impl<W: Write> Print<W> for TextPrinter :: fn print_object
+//@@ safety C15
+//@@ endfn
+//@@ fn textprint.print_array = src/output_style.rs :: impl<W: Write> Print<W> for TextPrinter :: fn print_array
+//@@ safety C15
+//@@ endfn
+}
+
+// one text/csv row: the fields in selection order, the separator after every field but the last, then the row separator.
+// `n` is the number of selections the printer was started with (TextProcess::length).
+pub open spec fn opt_text(p: TextPrinter, v: Option<JsonValue>) -> Seq<char> {
+    match v { None => Print::<String>::t_nothing(&p), Some(x) => text_value_text(p, x) }
+}
+pub open spec fn text_value_text(p: TextPrinter, v: JsonValue) -> Seq<char> {
+    match v {
+        JsonValue::Null => Print::<String>::t_null(&p), JsonValue::Boolean(b) => if b { Print::<String>::t_true(&p) } else { Print::<String>::t_false(&p) },
+        JsonValue::Number(n) => match n { NumberValue::Float(x) => Print::<String>::t_f64(&p, x), NumberValue::Negative(x) => Print::<String>::t_i64(&p, x), NumberValue::Positive(x) => Print::<String>::t_u64(&p, x) },
+        JsonValue::String(t) => Print::<String>::t_string(&p, t@),
+        JsonValue::Array(a) => Print::<String>::t_array(&p, a@), JsonValue::Object(m) => Print::<String>::t_object(&p, m.entries()),
+    }
+}
+pub open spec fn fields_text(p: TextPrinter, n: int, list: Seq<Option<JsonValue>>, upto: int) -> Seq<char>
+    decreases upto
+{
+    if upto <= 0 { Seq::empty() } else {
+        fields_text(p, n, list, upto - 1).add(opt_text(p, list[upto - 1])).add(if upto - 1 < n - 1 { p.opts().items_seperator@ } else { Seq::empty() })
+    }
+}
+pub open spec fn list_row(p: TextPrinter, n: int, sep: Seq<char>, list: Seq<Option<JsonValue>>) -> Seq<char> {
+    fields_text(p, n, list, list.len() as int).add(sep)
+}
+
+impl TextProcess {
+//@@ fn textprocess.print_list = src/output_style.rs :: impl TextProcess :: fn print_list
+//@@ safety C15 C16 C05
+//@@ ret r
+//@@ rewrite write_macros enumerate
+//@@ header
+        requires old(self).length >= 1,
+        ensures
+            final(self).length == old(self).length && final(self).line_seperator == old(self).line_seperator && final(self).printer == old(self).printer,
+            // exactly one field per element of the list, in order, separated, then the row separator (C15: N fields per row)
+            r is Ok ==> final(self).writer.log() == old(self).writer.log().add(list_row(old(self).printer, old(self).length as int, old(self).line_seperator@, list@)), // @obl PRINT.text.row : C15
+            is_pre(old(self).writer.log(), final(self).writer.log()), // @obl PRINT.text.row_prefix : C16
+            r is Ok ==> r->Ok_0 is Continue,
+//@@ body-start
+        let ghost l0 = self.writer.log();
+//@@ loop 1 iter it
+            invariant
+                l0 == old(self).writer.log(), self.length == old(self).length, self.length >= 1, self.line_seperator == old(self).line_seperator, self.printer == old(self).printer,
+                0 <= it.index@ <= list@.len(), it.seq().len() == list@.len(),
+                forall|j: int| 0 <= j < it.seq().len() ==> (#[trigger] it.seq()[j]).0 == j && *it.seq()[j].1 == list@[j],
+                is_pre(l0, self.writer.log()),
+                self.writer.log() == l0.add(fields_text(self.printer, self.length as int, list@, it.index@)),
+//@@ endfn
+}
+
+pub open spec fn text_row(p: TextPrinter, n: int, sep: Seq<char>, c: Context) -> Seq<char> {
+    if n != 0 { list_row(p, n, sep, res_values(c.res())) } else { text_value_text(p, c.inp()).add(sep) }
+}
+pub open spec fn text_rows(p: TextPrinter, n: int, sep: Seq<char>, r: Seq<Context>) -> Seq<char>
+    decreases r.len()
+{
+    if r.len() == 0 { Seq::empty() } else { text_row(p, n, sep, r[0]).add(text_rows(p, n, sep, r.subrange(1, r.len() as int))) }
+}
+
+impl Process for TextProcess {
+    closed spec fn inv(&self) -> bool { true }
+    closed spec fn log(&self) -> Seq<char> { self.writer.log() }
+    closed spec fn fut(&self, rows: Seq<Context>) -> Seq<char> { text_rows(self.printer, self.length as int, self.line_seperator@, rows) }
+    closed spec fn must_break(&self) -> bool { false }
+    closed spec fn eager(&self) -> bool { true }
+
+//@@ fn textprocess.complete = src/output_style.rs :: impl Process for TextProcess :: fn complete
+//@@ safety C15 C03
+//@@ endfn
+//@@ fn textprocess.start = src/output_style.rs :: impl Process for TextProcess :: fn start
+//@@ safety C15 C18 C03
+//@@ ret r
+//@@ header
+        ensures
+            // csv (headers) without selections — also after --group-by/--merge, which reset the titles — is rejected, nothing written
+            old(self).printer.opts().headers && titles_so_far.names().len() == 0 ==> r is Err && final(self).writer.log() == old(self).writer.log(), // @obl PRINT.text.no_headers : C18 C15
+            // the header row lists the selection names in order
+            r is Ok && old(self).printer.opts().headers ==> final(self).writer.log() == old(self).writer.log().add(list_row(old(self).printer, titles_so_far.names().len() as int, old(self).line_seperator@, title_values(titles_so_far.names()))), // @obl PRINT.text.header_row : C15
+            r is Ok && !old(self).printer.opts().headers ==> final(self).writer.log() == old(self).writer.log(),
+            r is Ok ==> final(self).length == titles_so_far.names().len(),
+//@@ endfn
+//@@ fn textprocess.process = src/output_style.rs :: impl Process for TextProcess :: fn process
+//@@ safety C15 C16 C03
+//@@ rewrite write_macros
+//@@ body-start
+        let ghost l0 = self.writer.log();
+        proof {
+            let p = self.printer; let n = self.length as int; let sep = self.line_seperator@;
+            let row = text_row(p, n, sep, context);
+            assert forall|rows: Seq<Context>| #[trigger] text_rows(p, n, sep, seq![context].add(rows)) == row.add(text_rows(p, n, sep, rows)) by {
+                assert(seq![context].add(rows).subrange(1, seq![context].add(rows).len() as int) =~= rows);
+            }
+            assert forall|rows: Seq<Context>| l0.add(row).add(#[trigger] text_rows(p, n, sep, rows)) =~= l0.add(row.add(text_rows(p, n, sep, rows))) by {}
+            assert(seq![context].subrange(1, 1) =~= Seq::<Context>::empty());
+            assert(text_rows(p, n, sep, Seq::<Context>::empty()) =~= Seq::<char>::empty());
+            assert(row.add(Seq::<char>::empty()) =~= row);
+            assert(text_rows(p, n, sep, seq![context]) =~= row);
+        }
+//@@ before "Ok(ProcessDesision::Continue)"
+            proof {
+                assert(str@ == text_value_text(self.printer, context.inp()));
+                assert(self.writer.log() =~= l0.add(text_row(self.printer, 0, self.line_seperator@, context)));
+            }
 //@@ endfn
 }
 
